@@ -352,6 +352,8 @@ def install(ex):
     def b_abs(I, v):
         if isinstance(v, (int, float)):
             return abs(v)
+        if isinstance(v, SReal):
+            return SReal(z3.If(v.z >= 0, v.z, -v.z))
         if isinstance(v, SInt):
             return SInt(z3.If(v.z >= 0, v.z, -v.z))
         _undecided("abs")
